@@ -16,20 +16,53 @@ open UvModel.FsBuf
 `eintr_not_surfaced` (every request, ledger and answer list), `exactly_one_cb`, `sync_never_registers`,
 `registered_iff_in_flight` (every `Args`, every event list).
 
-NOT yet proved — kept as `def …_stmt : Prop` (full strength, not theorems): `no_double_free_stmt`, `cleanup_frees_all_stmt`,
-`path_lifetime_async_stmt`, `path_borrowed_sync_stmt`, `stat_ptr_stmt`, `dir_handed_over_stmt`
+Proved via the ledger invariant `LInv` (Lemmas/FsReqLemmas): `no_double_free_holds`, `cleanup_frees_all_holds`.
+
+`path_lifetime_async_holds`, `path_borrowed_sync_holds` (with the path invariant `PInv`).
+
+REFUTED as stated (witness: a failed answer with errno 0): `stat_ptr_stmt_false`, `dir_handed_over_stmt_false`; the corrected
+`stat_ptr_nz_stmt` (answers never fail with errno 0) is proved: `stat_ptr_nz_holds`; `dir_handed_over_nz_stmt` is NOT yet proved and
+stays a `def … : Prop`
 (`result_normalised_stmt` is proved: `result_normalised_holds`).
-What is missing is one inductive invariant (ledger counts agree with the pointer fields `path`/`bufs`/`ptr`, per phase) through
-`attempt`/`work`/`submit`/`cqe`/`scandirNext`/`cleanup`; the case analysis (36 kinds x fields) exceeded the build budget of this
-round.  Until then these statements are *tested*, not proved: checks/c11.py evaluates them on the model's output for every
-generated life cycle (variant x callback x route x cancel x fallback x oom x next-count x cleanup-count) and, independently, on the
-real code's log. -/
+What is missing for it: a per-phase fact tying `result = 0` to the handed-over directory blocks under `AnswersNonzero`.  checks/c11.py still evaluates every statement on the model's output and on the real code's log for every
+generated life cycle. -/
 
 def no_double_free_stmt : Prop := ∀ (a : Args) (evs : List Ev), (run a evs).l.badFree = 0
+
+/-- no life cycle — any kind, route, outcome, with or without callback, cancelled or not, any number of next / cleanup
+    calls — ever frees a block that is not live or a pointer that is not a heap block -/
+theorem no_double_free_holds : no_double_free_stmt := by
+  intro a evs
+  have h := linv_run a evs
+  by_cases hp : (run a evs).phase = .idle
+  · rw [h.idle hp]; simp [init]; split <;> rfl
+  · exact (h.rel hp).bad
+
+example : (run ⟨.read, true, false, 6, true, false, 0, 0, []⟩ [.submit, .cancel, .done, .cleanup, .cleanup]).l.badFree = 0 ∧
+          (run ⟨.read, true, false, 6, true, false, 0, 0, []⟩ [.submit, .cancel, .done]).l.bufs = 1 := by decide +kernel
 
 def cleanup_frees_all_stmt : Prop := ∀ (a : Args) (evs : List Ev),
   (run a evs).phase = .done ∨ (run a evs).phase = .rejected →
   (run a (evs ++ [.cleanup])).l.reqOwned = 0 ∧ (run a (evs ++ [.cleanup])).l.badFree = 0
+
+/-- after completion (or a refused front-end call) uv_fs_req_cleanup leaves nothing owned by the request in the ledger -/
+theorem cleanup_frees_all_holds : cleanup_frees_all_stmt := by
+  intro a evs hp
+  have h := linv_run a evs
+  have hq : (run a evs).phase ≠ .idle := by rcases hp with hp | hp <;> simp [hp]
+  have hr : run a (evs ++ [.cleanup]) = cleanup (run a evs) := by
+    unfold run
+    rw [runFrom_append]
+    have hp' : (runFrom a (init a) evs).phase = .done ∨ (runFrom a (init a) evs).phase = .rejected := hp
+    simp only [runFrom, step_cleanup]
+    rw [if_pos hp']
+  rw [hr]
+  obtain ⟨c1, c2, _⟩ := cleanup_of_rel _ (h.rel hq) (h.bufs hq)
+  exact ⟨c1, c2⟩
+
+example : (run ⟨.scandir, true, false, 0, true, false, 1, 0, []⟩ [.submit, .work [.ok 3], .done, .next, .next]).l.reqOwned = 4 ∧
+          (run ⟨.scandir, true, false, 0, true, false, 1, 0, []⟩ [.submit, .work [.ok 3], .done, .next, .next, .cleanup]).l.reqOwned = 0 := by
+  decide +kernel
 
 /-- partial result towards `cleanup_frees_all_stmt`: in EVERY state (reachable or not) whose ledger agrees with the request's
     pointer fields (`Rel`: a heap `path`/`bufs`/`ptr` has exactly one live block of its role, scandir entries from the iterator
@@ -42,10 +75,7 @@ theorem cleanup_frees_all_partial (s : St) (h : Rel s.req s.l) (hb : s.req.bufs 
 
 /-- uv_fs_req_cleanup leaves `path`, `new_path`, `bufs` and `ptr` NULL, whatever state the request was in -/
 theorem cleanup_nulls (s : St) :
-    (cleanup s).req.path = .null ∧ (cleanup s).req.newPath = false ∧ (cleanup s).req.bufs = .null ∧ (cleanup s).req.ptr = .null := by
-  unfold cleanup
-  simp only []
-  refine ⟨?_, ?_, ?_, ?_⟩ <;> (repeat' split) <;> first | rfl | trivial
+    (cleanup s).req.path = .null ∧ (cleanup s).req.newPath = false ∧ (cleanup s).req.bufs = .null ∧ (cleanup s).req.ptr = .null := cleanup_fields_null s
 
 /-- a second uv_fs_req_cleanup is a no-op, whatever state the request was in -/
 theorem cleanup_idempotent (s : St) : cleanup (cleanup s) = cleanup s := by
@@ -60,9 +90,51 @@ def path_lifetime_async_stmt : Prop := ∀ (a : Args) (evs : List Ev),
   (run a evs).phase ≠ .idle → (run a evs).phase ≠ .rejected → (run a evs).cleaned = false →
   (run a evs).req.path = .heap ∧ (run a evs).l.get (pathRole a.op) = 1
 
+/-- with a callback (and always for mkdtemp/mkstemp) the path copy is a live heap block from the front end's return until
+    the first uv_fs_req_cleanup, on every route and for cancelled and failed requests alike -/
+theorem path_lifetime_async_holds : path_lifetime_async_stmt := by
+  intro a evs hc hk hp1 hp2 hcl
+  have hP := pinv_run a evs
+  have hL := linv_run a evs
+  have hpath := hP.pv hp1 hp2 hcl
+  have hv : pathVal a = .heap := by
+    unfold pathVal
+    rcases hc with hc | hc
+    · cases hkk : pathKind a.op <;> simp [hkk, hc] at hk ⊢
+    · simp [hc]
+  rw [hv] at hpath
+  refine ⟨hpath, ?_⟩
+  have := ((hL.rel hp1).pathH hpath).1
+  rw [(hP.oc hp1).1] at this
+  exact this
+
+example : (run ⟨.rename, true, true, 0, true, false, 1, 5, []⟩ [.submit, .cancel, .cqe (-2)]).req.path = .heap ∧
+          (run ⟨.rename, true, true, 0, true, false, 1, 5, []⟩ [.submit, .cancel, .cqe (-2)]).l.path2 = 1 := by decide +kernel
+
 def path_borrowed_sync_stmt : Prop := ∀ (a : Args) (evs : List Ev),
   a.cb = false → pathKind a.op ≠ .tmpl →
   (run a evs).req.path ≠ .heap ∧ (run a evs).l.path = 0 ∧ (run a evs).l.path2 = 0 ∧ (run a evs).l.badFree = 0
+
+/-- without a callback the caller's path is borrowed: never copied, never freed -/
+theorem path_borrowed_sync_holds : path_borrowed_sync_stmt := by
+  intro a evs hc hk
+  have hP := pinv_run a evs
+  have hL := linv_run a evs
+  have hv : pathVal a ≠ .heap := by
+    unfold pathVal
+    cases hkk : pathKind a.op <;> simp [hkk, hc] at hk ⊢
+  by_cases hp : (run a evs).phase = .idle
+  · rw [hP.idle hp]; simp [init]; split <;> simp [Ledger.empty]
+  · have hne : (run a evs).req.path ≠ .heap := by
+      rcases hP.pn hp with h | h <;> rw [h]
+      · exact hv
+      · simp
+    have hs := (hL.rel hp).pathS
+    simp [hne] at hs
+    exact ⟨hne, hs.1, hs.2, (hL.rel hp).bad⟩
+
+example : (run ⟨.stat, false, false, 0, true, false, 1, 0, [.ok 0]⟩ [.submit]).req.path = .user ∧
+          (run ⟨.stat, false, false, 0, true, false, 1, 0, [.ok 0]⟩ [.submit, .cleanup]).l.badFree = 0 := by decide +kernel
 
 /-- `uv__fs_work` leaves in `req->result` either a count the kernel (or the action) reported or the negated errno of
     a failed call — never the raw `-1` of the C call and never a positive errno -/
@@ -121,6 +193,44 @@ def stat_ptr_stmt : Prop := ∀ (a : Args) (evs : List Ev),
   isStat a.op = true → (run a evs).phase = .done → (run a evs).cleaned = false →
   (run a evs).req.ptr = (if (run a evs).req.result = 0 then .statbuf else .null)
 
+/-- `stat_ptr_stmt` is FALSE of the model as stated: a failed answer whose errno is 0 (`r == -1`, `errno == 0`) gives
+    `req->result = 0` while `req->ptr` stays NULL (fs.c:1751-1760 tests `r == 0`, not `req->result == 0`).  No system call fails
+    with errno 0, so this is an artefact of the statement, not a libuv defect; the statement to prove is `stat_ptr_nz_stmt`. -/
+theorem stat_ptr_stmt_false : ¬ stat_ptr_stmt := by
+  intro h
+  have := h ⟨.stat, false, false, 0, true, false, 1, 0, [.fail 0]⟩ [.submit] (by decide +kernel) (by decide +kernel) (by decide +kernel)
+  revert this
+  decide +kernel
+
+/-- the kernel answers of a life cycle never fail with errno 0 -/
+def AnswersNonzero (a : Args) (evs : List Ev) : Prop := Outcome.fail 0 ∉ answers a evs
+
+/-- corrected statement (proved below) -/
+def stat_ptr_nz_stmt : Prop := ∀ (a : Args) (evs : List Ev), AnswersNonzero a evs →
+  isStat a.op = true → (run a evs).phase = .done → (run a evs).cleaned = false →
+  (run a evs).req.ptr = (if (run a evs).req.result = 0 then .statbuf else .null)
+
+/-- for stat / lstat / fstat on every route (sync, pool, io_uring, io_uring with -EOPNOTSUPP fallback, cancelled): in the
+    callback and until cleanup `req->ptr == &req->statbuf` exactly when `req->result == 0`, else NULL -/
+theorem stat_ptr_nz_holds : stat_ptr_nz_stmt := by
+  intro a evs hnz hs hd hc
+  have hnz0 : Outcome.fail 0 ∉ a.outs := fun h => hnz (by unfold answers; exact List.mem_append_left _ h)
+  have hev : ∀ e, e ∈ evs → ∀ os, e = .work os → Outcome.fail 0 ∉ os := by
+    intro e he os heq h
+    apply hnz
+    unfold answers
+    apply List.mem_append_right
+    rw [List.mem_flatMap]
+    exact ⟨e, he, by subst heq; exact h⟩
+  have key : LInv a (run a evs) ∧ PInv a (run a evs) ∧ SInv a (run a evs) :=
+    run_induct_mem a (fun s => LInv a s ∧ PInv a s ∧ SInv a s) evs
+      ⟨linv_init a, ⟨fun _ => rfl, by simp [init], by simp [init], by simp [init]⟩, fun hp => by simp [init] at hp⟩
+      (fun s e he ⟨h1, h2, h3⟩ => ⟨linv_step a s e h1, pinv_step a s e h2, sinv_step a hs s e hnz0 (hev e he) h1 h2 h3⟩)
+  exact key.2.2 (Or.inr hd) hc
+
+example : (run ⟨.stat, true, true, 0, true, false, 1, 0, []⟩ [.submit, .cqe (-95), .work [.fail 4, .ok 0], .done]).req.ptr = .statbuf ∧
+          (run ⟨.lstat, true, true, 0, true, false, 1, 0, []⟩ [.submit, .cqe (-2)]).req.ptr = .null := by decide +kernel
+
 /-- the callback of an asynchronous request has run exactly once when the request is complete and not at all
     before; a synchronous request never has its callback slot invoked -/
 theorem exactly_one_cb (a : Args) (evs : List Ev) :
@@ -150,6 +260,19 @@ example : (run ⟨.stat, true, true, 0, true, false, 1, 0, []⟩ [.submit, .cqe 
           (run ⟨.stat, true, true, 0, true, false, 1, 0, []⟩ [.submit, .cqe (-95)]).regs = 2 := by decide +kernel
 
 def dir_handed_over_stmt : Prop := ∀ (a : Args) (evs : List Ev),
+  a.op = .opendir → (run a evs).phase = .done →
+  (run a evs).l.userOwned = (if (run a evs).req.result = 0 then 2 else 0)
+
+/-- `dir_handed_over_stmt` is FALSE of the model as stated, for the same reason (a failed opendir with errno 0 reports
+    `result = 0` and hands over nothing); the statement to prove is `dir_handed_over_nz_stmt`. -/
+theorem dir_handed_over_stmt_false : ¬ dir_handed_over_stmt := by
+  intro h
+  have := h ⟨.opendir, false, false, 0, true, false, 1, 0, [.fail 0]⟩ [.submit] (by decide +kernel) (by decide +kernel)
+  revert this
+  decide +kernel
+
+/-- corrected statement (not yet proved) -/
+def dir_handed_over_nz_stmt : Prop := ∀ (a : Args) (evs : List Ev), AnswersNonzero a evs →
   a.op = .opendir → (run a evs).phase = .done →
   (run a evs).l.userOwned = (if (run a evs).req.result = 0 then 2 else 0)
 
